@@ -28,8 +28,8 @@ type pushState struct {
 
 // pushHandler describes the manifest push handler.
 type pushHandler struct {
-	hs        *hashSite
-	readAll   *ssa.Call
+	hs      *hashSite
+	readAll *ssa.Call
 	// viaHelper: the body is read by a helper of the server package (call in the handler); its non-nil byte results are
 	// within the limit by the helper's own check; argOf maps the helper's parameters to the handler's arguments
 	viaHelper *ssa.Call
@@ -259,8 +259,12 @@ func (ph *pushHandler) declaredDerived(r *Roles, v ssa.Value, depth int) bool {
 	}
 	v = an.Strip(v)
 	if call, _ := an.CallOf(v); call != nil {
+		// a predicate or normaliser of the types package applied to the declared value; the normalised value may
+		// itself be what the handler records
 		if sc := call.Call.StaticCallee(); sc != nil && core.FuncPkgPath(sc) == r.TypesPath && len(call.Call.Args) == 1 {
-			return ph.declaredDerived(r, call.Call.Args[0], depth+1)
+			if ph.declaredDerived(r, call.Call.Args[0], depth+1) {
+				return true
+			}
 		}
 	}
 	mine := map[ssa.Value]bool{}
@@ -374,6 +378,18 @@ func analysePush(c *core.Ctx, r *Roles, ph *pushHandler) map[string][2]string {
 				}
 				if maxBytes && x == readErr {
 					s.bits |= bLimit
+				}
+			}
+			// the verifier's list tested for emptiness instead of nil
+			if x, emptySucc, ok := an.LenZeroTest(ifi); ok && succ == emptySucc {
+				if call, _ := an.CallOf(an.Origin(x)); call != nil {
+					if k, ok := ph.verifiers[call]; ok {
+						if k == "img" {
+							s.bits |= bExistImg
+						} else {
+							s.bits |= bExistIdx
+						}
+					}
 				}
 			}
 			if x, y, op, ok := an.CmpTest(ifi); ok {
@@ -1136,8 +1152,17 @@ func runReferrerCall(c *core.Ctx) {
 }
 
 // helperSiteIn returns the instruction of f through which a referrers helper is called: a direct call,
-// or the call of a closure (created in f) that contains one.
+// the call of a closure (created in f) that contains one, or the call of a function of the server package
+// that does (two levels).
 func helperSiteIn(c *core.Ctx, f *ssa.Function) ssa.Instruction {
+	return helperSiteDepth(c, f, 0, map[*ssa.Function]bool{})
+}
+
+func helperSiteDepth(c *core.Ctx, f *ssa.Function, depth int, seen map[*ssa.Function]bool) ssa.Instruction {
+	if f == nil || seen[f] || depth > 2 {
+		return nil
+	}
+	seen[f] = true
 	var site ssa.Instruction
 	an.Calls(f, func(call ssa.CallInstruction) {
 		if isHelperCall(c, call) != nil {
@@ -1146,9 +1171,15 @@ func helperSiteIn(c *core.Ctx, f *ssa.Function) ssa.Instruction {
 		}
 		if mc, ok := call.Common().Value.(*ssa.MakeClosure); ok {
 			if cf, ok := mc.Fn.(*ssa.Function); ok {
-				if helperSiteIn(c, cf) != nil {
+				if helperSiteDepth(c, cf, depth, seen) != nil {
 					site = call
 				}
+			}
+			return
+		}
+		if sc := call.Common().StaticCallee(); sc != nil && sc.Parent() == nil && len(sc.Blocks) > 0 && core.FuncPkgPath(sc) == core.FuncPkgPath(f) && site == nil {
+			if helperSiteDepth(c, sc, depth+1, seen) != nil {
+				site = call
 			}
 		}
 	})
